@@ -86,6 +86,19 @@ CHECKS["C11"] = dict(engine="E1", cat="model_checking", design="4/C11",
                      note="plural table hand-reviewed (names without entry: singular only); '^' read as 'e' in factors; "
                           "known finding: unit names containing a blank")
 
+CHECKS["C15"] = dict(engine="E1", cat="model_checking", design="4/C15",
+                     technique="bounded exhaustive enumeration of annotations x query expressions with algebraic laws and "
+                               "reference base-case semantics; exhaustive token strings for parser totality",
+                     text="Every forest up to the bound over {Event, Sensory-event, Red, Blue} (all sibling orders) is searched "
+                          "with every atom and every unary/binary composition; base cases are compared with reference "
+                          "semantics from the XML model (term on path, exact tag, short-form prefix, two witnesses for t && t); "
+                          "Or law, And implies both, symmetry, associativity, distribution of && over ||, invariance under "
+                          "sibling order, repeatability and purity are checked on all pairs/triples; every token string of "
+                          "length <= 4 (thorough 5) over the 17-symbol query alphabet either compiles or raises ValueError, "
+                          "unbalanced grouping never compiles; query_service agrees with the handlers.",
+                     note="compound operands are judged by laws only; the distribution law is derived (a match of A is a match "
+                          "of A || B), not literal in the statement")
+
 PENDING_REASON = "check not built yet in this revision (planned in DESIGN.md section 4); not claimed until it is"
 
 
